@@ -16,8 +16,10 @@ SeedOk(r) == r.all_same_full_width /\ All(r.early, r.main) /\ All(r.late, r.main
 \* the last references of a node, one per thread, released at the same instant: destroyed exactly once per round,
 \* and exactly one of the puts reported it
 LastRefsOk(r) == r.destroyed = r.rounds /\ r.freed_reports = r.rounds /\ r.bad_rounds = 0
+\* counts beyond 2^31: releases that are not the last one destroy nothing and report nothing; the last one destroys once
+HighCountOk(r) == All(r.destroyed_early, 0) /\ All(r.early_freed_reports, 0) /\ All(r.destroyed, 1)
 DisjointOk(r) == All(r.consistent, 1) /\ All(r.freed, 1)
-StepOfImpl(s, r) == [ok |-> CASE r.e = "counter" -> CounterOk(r) [] r.e = "seed" -> SeedOk(r) [] r.e = "disjoint" -> DisjointOk(r) [] r.e = "lastrefs" -> LastRefsOk(r) [] OTHER -> FALSE, st |-> s]
+StepOfImpl(s, r) == [ok |-> CASE r.e = "counter" -> CounterOk(r) [] r.e = "seed" -> SeedOk(r) [] r.e = "disjoint" -> DisjointOk(r) [] r.e = "lastrefs" -> LastRefsOk(r) [] r.e = "highcount" -> HighCountOk(r) [] OTHER -> FALSE, st |-> s]
 TraceLog == ndJsonDeserialize(IOEnv.TRACE)
 T == INSTANCE TraceBase WITH Log <- TraceLog, InitSt <- 0, StepOf <- StepOfImpl, ResyncAtNew <- FALSE
 Spec == T!Spec
